@@ -957,6 +957,22 @@ example : parseQua "Title: a b\nMode: '123'\nArtist: 'it''s: #1'\nSliderVelociti
   parse_emit_partial exTree _ exTree_wf exTree_text
 
 
+/-- a text `parseQua` accepts has no repeated key in any mapping and is not empty (PyYAML would silently keep the last
+of two equal keys; the subset excludes such texts) -/
+theorem parseQua_nodup (s : String) (t : Tree) (h : parseQua s = some t) : treeNodup t = true ∧ t ≠ [] := by
+  unfold parseQua parseChars at h
+  split at h
+  · simp at h
+  · split at h
+    · simp at h
+    · split at h
+      · rename_i hc
+        simp at h
+        subst h
+        simp only [Bool.and_eq_true, Bool.not_eq_true', List.isEmpty_eq_false_iff] at hc
+        exact hc
+      · simp at h
+
 /-- different well-formed trees of the class have different texts -/
 theorem emitQua_injective (t1 t2 : Tree) (s : String) (h1 : WFTree t1) (h2 : WFTree t2) (e1 : emitQua t1 = some s)
     (e2 : emitQua t2 = some s) : t1 = t2 := by
